@@ -107,7 +107,7 @@ func TestC17_Concurrent(t *testing.T) {
 		func(c *hx.Case) {
 			t := c.T
 			base := gen.DrawScope(t, gen.ScopeOpts{Nulls: 14})
-			kind := rapid.SampledFrom([]int{0, 0, 0, 1, 1, 2, 3, 3}).Draw(t, "artefact")
+			kind := rapid.SampledFrom([]int{0, 0, 0, 1, 1, 2, 3, 3, 4}).Draw(t, "artefact")
 			var exprs []hcl.Expression
 			var body hcl.Body
 			// the sources, so that a second, untouched copy of the artefact can be parsed: the
@@ -118,6 +118,24 @@ func TestC17_Concurrent(t *testing.T) {
 			var schema *hcl.BodySchema
 			hasSplat := false
 			switch kind {
+			case 4:
+				// a splat whose per-element part depends on the context (a computed index after
+				// the splat marker): what one goroutine's context makes of it must not reach another
+				c.Class("artefact_context_dependent_splat")
+				hasSplat = true
+				pool := []string{"objs[*][k]", "objs[*].vals[i]", "[for o in objs[*][k] : o]", "len(objs[*][k])", "objs[*][k] == []", "{r = objs[*].vals[i]}",
+					"objs[*].vals[i][*]", "[objs[*][k], objs[*].vals[i]]", "one[*][k]", "one[*].vals[i]", "objs[*][\"${k}\"]", "c1 ? objs[*][k] : null"}
+				n := rapid.IntRange(1, 2).Draw(t, "nexprs")
+				for i := 0; i < n; i++ {
+					src := rapid.SampledFrom(pool).Draw(t, "ctxsplat")
+					e, diags := parseExprSrc(src)
+					if diags.HasErrors() {
+						c.Failf("parse-error", "%s", diagStr(diags))
+					}
+					exprs = append(exprs, e)
+					exprSrcs = append(exprSrcs, src)
+					c.Set(fmt.Sprintf("expr%d", i), src)
+				}
 			case 0:
 				c.Class("artefact_expression")
 				g := gen.NewEG(t, base, gen.ExprOpts{IllTyped: 14})
@@ -306,6 +324,17 @@ func TestC17_Concurrent(t *testing.T) {
 						vars[name] = gen.ValueOf(base.Vals[name].Type(), gen.ValOpts{Nulls: 14}).Draw(t, "ctxval")
 					}
 				}
+				if kind == 4 {
+					oty := cty.Object(map[string]cty.Type{"id": cty.Number, "name": cty.String, "vals": cty.Tuple([]cty.Type{cty.Number, cty.String})})
+					mk := func(j int) cty.Value {
+						return cty.ObjectVal(map[string]cty.Value{"id": cty.NumberIntVal(int64(j)), "name": cty.StringVal(fmt.Sprint("n", j)), "vals": cty.TupleVal([]cty.Value{cty.NumberIntVal(int64(j)), cty.StringVal("v")})})
+					}
+					vars["objs"] = rapid.SampledFrom([]cty.Value{cty.ListValEmpty(oty), cty.ListValEmpty(oty), cty.UnknownVal(cty.List(oty)), cty.SetValEmpty(oty), cty.ListVal([]cty.Value{mk(1), mk(2)}), cty.EmptyTupleVal, cty.UnknownVal(cty.Set(oty))}).Draw(t, "objs")
+					vars["one"] = rapid.SampledFrom([]cty.Value{mk(3), cty.NullVal(oty), cty.UnknownVal(oty)}).Draw(t, "one")
+					vars["k"] = cty.StringVal(rapid.SampledFrom([]string{"id", "name", "vals"}).Draw(t, "k"))
+					vars["i"] = cty.NumberIntVal(int64(rapid.IntRange(0, 1).Draw(t, "i")))
+					vars["c1"] = cty.True
+				}
 				if sharedParent {
 					ctxs[gi] = parent.NewChild()
 					ctxs[gi].Variables = vars
@@ -440,14 +469,19 @@ func TestC17_Concurrent(t *testing.T) {
 			expected := make([][]c17result, G)
 			for gi := range plans {
 				for _, op := range plans[gi] {
+					// the baseline of every call: the same call on an artefact nothing else has
+					// been asked of (a fresh parse), so that no earlier call can have left anything
+					// behind in it
+					fe, fb := fresh()
 					var rest hcl.Body
 					if op.kind >= 7 {
-						// the baseline for a request on a remaining body: the same request on a
-						// remaining body nothing else has been asked of
-						_, fb := fresh()
 						rest = restOf(fb)
 					}
-					expected[gi] = append(expected[gi], run(exprs, body, baseBlocks, rest, gi, op))
+					var fblocks []genBlock
+					if op.kind == 6 {
+						fblocks = freshBlocks(fb)
+					}
+					expected[gi] = append(expected[gi], run(fe, fb, fblocks, rest, gi, op))
 					if strings.HasPrefix(expected[gi][len(expected[gi])-1].val, "PANIC") {
 						c.Failf("panic-sequential", "sequential call panicked: %s", expected[gi][len(expected[gi])-1].val)
 					}
